@@ -5,7 +5,7 @@ import hashlib
 
 from .loop import SimLoop, SimDeadlock, SimStepLimit
 from .net import SimNet
-from .seams import DetRandom, Seams, SimClock, import_msmart
+from .seams import DetRandom, Seams, SimClock, import_msmart, debug_choice, set_logging
 
 DEFAULT_EPOCH = (2024, 5, 17, 10, 20, 30, 123456)
 
@@ -25,6 +25,8 @@ def _norm(x):
 class World:
     def __init__(self, seed, epoch=DEFAULT_EPOCH, msg_id_start=0, max_iterations=20_000):
         self.ns = import_msmart()
+        self.debug_logging = debug_choice(seed)
+        set_logging(self.debug_logging)
         self._h = hashlib.sha256()
         self._kinds = hashlib.sha256()
         self.n_events = 0
